@@ -22,6 +22,49 @@ CHECKS = {
     ),
 }
 
+CORE_NOTE = ("Small-scope bounds (slot counts, 2 names, 2 value tokens, depth 5-7; cfg files in spec/core); entity classes are a "
+             "refinement parameter rotated over 6 group and 8 object classes; float data; GC schedule driven by the harness; "
+             "trusted: TLC, h5py, harness/core_replay.py + harness/h5snap.py. Quick replays a seeded sample of <=1500 paths of the "
+             "path cover, thorough the whole transition cover of a larger configuration.")
+CORE_TECH = ("TLA+ spec Geoh5Core.tla (live tree / weak-ref registries / HDF5 node+link graph / handle mode; GC, purge, close, "
+             "re-open as separate actions) model-checked with TLC (Ideal design: all invariants; as-built: named deviation), "
+             "state graph exported and a transition cover replayed through the public API with full state comparison "
+             "(live projection + independent raw-h5py snapshot) after every action")
+
+
+def core(pid, text):
+    return dict(engine="spec/core", category="model_checking", technique=CORE_TECH, text=text,
+                design_ref="DESIGN.md section 2", note=CORE_NOTE)
+
+
+CHECKS.update({
+    "C01": core("C01", "Invariant ReopenEqualsLive (what a reader loads from the file = the live tree) is model-checked over every "
+                "interleaving of create/rename/assign/move/copy/remove/close/open/GC/purge within the bounds; the implementation is "
+                "held to the specification step by step (outcome, live projection, raw file snapshot) and, independently, the tree "
+                "before every close is compared with the tree a fresh Workspace loads."),
+    "C02": core("C02", "History-dependent layout invariants (links point to nodes, one parent, reachability, property groups list "
+                "children) are model-checked; every closed file produced by the replayed behaviours is validated with an "
+                "independent raw-h5py checker (containers, ID attributes, Type links by HDF5 object address, hard links, single "
+                "parent, reachability from Root, property-group membership). Unreachable nodes predicted by the named as-built "
+                "deviation are reported as the recorded finding, anything else as a violation."),
+    "C05": core("C05", "Both removal entry points on trees with data in 0-2 property groups, objects with children and nested groups, "
+                "with refusal (allow_delete off) frames, GC/purge placements and follow-up operations; after every step flat "
+                "containers, links, property-group blocks, children lists and registries must equal the specification."),
+    "C06": core("C06", "Explicit identifiers colliding with live entities of any kind must be refused with live tree, registries and "
+                "file unchanged; re-creation after removal and same-workspace copies get fresh identifiers; registry/live agreement "
+                "(RegistryMatchesMemory) is model-checked and compared on the implementation after every step."),
+    "C09": core("C09", "Action property Footprint (every action changes only nodes in its footprint) is model-checked; on the "
+                "implementation per-node content and link digests, every type node and the header are compared before/after every "
+                "replayed action against the footprint the specification computed; open/close without mutation must not change any digest."),
+    "C11": core("C11", "Close in its three forms (close(), with-exit, exception escaping the block) at every reachable state, calls on "
+                "the closed workspace (must raise Geoh5FileClosedError), re-open; after every close the count of open HDF5 "
+                "file/group/dataset/attribute identifiers must be 0, the file must be valid and equal the specification (all completed "
+                "operations present)."),
+    "C12": core("C12", "Copy of data, objects and groups (deep/shallow, any attached target) is specified as an isomorphic subtree with "
+                "fresh slots and remapped property groups and an unchanged source; followed by edits of copy and source and re-opens, "
+                "with the full state compared after every step (so aliasing shows up as a divergence of the source)."),
+})
+
 NOT_YET = "check not built yet in this round (planned: see DESIGN.md section 7)"
 
 
